@@ -88,7 +88,37 @@ def rule_case(draw):
         frag['ringbonds'] = []
         frag['molprefix'] = []
     r = draw(ruleast.rule(frag=frag))
-    return dict(kind='rule', rule=r, layout=draw(ringast.layout()), smiles=smi, directed=directed)
+    return dict(kind='rule', rule=r, layout=draw(ringast.layout()), smiles=smi, directed=directed,
+                then=draw(st.lists(st.sampled_from(MOLS), max_size=2)))
+
+
+def run_and_compare(ctx, q, rule, text, smi, note=''):
+    """run an already-read rule object on one molecule and compare with the reference edit; returns number of matches or None"""
+    mol = Chem.MolFromSmiles(smi)
+    if mol is None:
+        return None
+    mh = Chem.AddHs(mol)
+    mm = ringref.MolModel(mh)
+    g0 = rxnref.graph_of(mh)
+    want_matches = sorted(ringref.matches(mm, ringast.to_ref(dict(rule['reactant'], name='r'))))
+    expected = collections.Counter()
+    for asg in want_matches:
+        try:
+            expected[rxnref.ghash(rxnref.apply_edits(g0, rule['edits'], asg))] += 1
+        except rxnref.IllDefined:
+            return None
+    try:
+        prods = q.RunReactants(Chem.Mol(mol))
+    except Exception as e:
+        ctx.fail('run-raises:%s%s' % (type(e).__name__, note and ':rule-object-reused'), 'RunReactants raised %s: %s\nrule: %s\nmolecule: %s %s' % (type(e).__name__, str(e)[:200], text, smi, note))
+        return None
+    ctx.count()
+    got = collections.Counter(rxnref.ghash(rxnref.union_graph(list(ps))) for ps in prods)
+    if len(prods) != len(want_matches) or got != expected:
+        ctx.fail('products-differ-from-declared-edit%s' % (':rule-object-reused' if note else ''),
+                 '%d product sets for %d matches / products differ from the declared edit\nrule: %s\nmolecule: %s %s'
+                 % (len(prods), len(want_matches), text, smi, note))
+    return len(want_matches)
 
 
 def check_rule(ctx, case):
@@ -171,6 +201,11 @@ def check_rule(ctx, case):
         ops = '+'.join(sorted(set(e[0] for e in rule['edits'])))
         ctx.fail('products-differ-from-declared-edit:%s' % ops, 'products %s are not the declared edit applied at the matches %s\nrule: %s\nmolecule: %s'
                  % (shown, want_matches[:4], text, smi))
+        return
+    # one rule object, several molecules in a row (and the first one again): earlier runs must not leak into later ones
+    for other in list(case.get('then') or []) + [smi]:
+        run_and_compare(ctx, q, rule, text, other, note='(after running the same rule object on %s)' % smi)
+        ctx.event('rule-object-reused')
 
 
 FAMILIES = [
